@@ -102,7 +102,7 @@ PROPS = {
                                         "EliasFano::{get,predecessor,len,build} contracts (C03)"],
         "assumptions": ["offset < usize::MAX for to_line_column (for offset == usize::MAX and a line start of 0 the naive column "
                         "offset - start + 1 is not representable)",
-                        "EliasFano::{get,predecessor,len} contracts are those proved in unit c03_ef; EliasFano::build (encoding == input) is not proved (bounded evidence)"],
+                        "EliasFano::{build,get,predecessor,len} contracts are those proved in units c03_build / c03_ef (inputs of up to 2^30 line starts)"],
     },
     "C03": {
         "level": "proof",
@@ -114,13 +114,15 @@ PROPS = {
                        "advance_by(k) for EVERY k: usize from every cursor state satisfying the representation invariant (parked on the idx-th "
                        "one with the word cache equal to that word's bits at and after it, or exhausted). Each operation re-establishes the "
                        "invariant, reports index == min(target, len) and the plain sequence's element there, so every finite interleaving "
-                       "follows by induction on its length. Kani re-proves the same inductive steps on 2-4 word bitmaps (counterexamples "
-                       "replay natively). EliasFano::build (encoding == input) is NOT proved: bounded Kani evidence only.",
+                       "follows by induction on its length. EliasFano::build is proved too (unit c03_build): for every non-decreasing input "
+                       "of up to 2^30 values the result satisfies the representation invariant the queries assume and denotes exactly the "
+                       "input (elem(i) == values[i] for every i; len and universe as stated), so get/predecessor/iteration answer over the "
+                       "caller's sequence. Kani re-proves the cursor steps on 2-4 word bitmaps (counterexamples replay natively).",
         "trusted_base": COMMON_TRUST + ["Verus 0.2026.09.13 + Z3; vstd specs of u64::trailing_zeros / wrapping_sub / usize::saturating_add",
                                         "seam R4: scan_select contract (unit c01_scan), select_in_word contract (Kani, C02)"],
-        "assumptions": ["representation invariant ef_wf of the encoding (samples are select positions; total ones == len; low_width <= 32; "
-                        "packed low bits long enough) and sortedness of the decoded sequence (for predecessor) are assumed of callers: "
-                        "EliasFano::build, which establishes them, has bounded evidence only",
+        "assumptions": ["values.len() <= 2^30 for build (every high-bit position then fits the u32 sample table)",
+                        "one trusted arithmetic fact about u64::leading_zeros (axiom_lz_top_bit), cross-checked for all u64 by Kani",
+                        "EliasFanoIter (two-line wrapper over cursor.current / advance_one) is not extracted",
                         "usize is 64 bits"],
     },
     "C13": {
